@@ -62,9 +62,13 @@ def make_replacement(rng, pat, kind, reach=2.5):
     elif kind == "equal_substitution":
         # same coordinates, at least one element changed
         j = int(rng.integers(n))
+        table = {"C": "Si", "O": "S", "N": "P", "H": "F", "Zr": "Hf"}
+        if rng.integers(2):
+            # substitutes whose symbols begin with the symbol they replace: another element at the same place all the same
+            table = {"C": "Cl", "O": "Os", "N": "Ni", "H": "He", "S": "Sn", "B": "Br", "F": "Fe", "P": "Pt", "Zr": "Zn"}
         for i in range(n):
             if i == j or rng.integers(4) == 0:
-                els.append({"C": "Si", "O": "S", "N": "P", "H": "F", "Zr": "Hf"}.get(pels[i], "Ge"))
+                els.append(table.get(pels[i], "Ge"))
                 pos.append(ppos[i].copy())
             else:
                 keep([i])
@@ -156,6 +160,15 @@ def observe_replace(structure, search, replace, seed, _positional=False, **kwarg
     out["found_positions"] = finds[-1]["positions"] if finds else None
     out["quats"] = finds[-1]["quats"] if finds else None
     out["search_positions_seen_by_find"] = finds[-1]["pattern_positions"] if finds else None
+    # the options the caller gave, and the ones the search made on his behalf actually ran with
+    out["plumbing"] = []
+    if finds:
+        want_atol = kwargs.get("atol", 5e-2)
+        want_hints = tuple(kwargs.get(k) for k in ("axisp1_idx", "axisp2_idx", "opoint_idx"))
+        if finds[-1]["atol"] is None or abs(float(finds[-1]["atol"]) - float(want_atol)) > 1e-15:
+            out["plumbing"].append("the replacement was asked for with tolerance %r, the search made for it ran with %r" % (want_atol, finds[-1]["atol"]))
+        if tuple(finds[-1]["hints"]) != want_hints:
+            out["plumbing"].append("the replacement was asked for with the hints %r, the search made for it ran with %r" % (want_hints, tuple(finds[-1]["hints"])))
     samples = [e for e in log if e["ev"] == "sample"]
     out["sample"] = samples[-1] if samples else None
     if out["found"] is not None:
